@@ -1717,8 +1717,12 @@ class WriteTool(BaseTool):
                 os.replace(temp_path, target_path)
 
             except Exception:
-                if os.path.exists(temp_path):
+                # Remove the temp file unconditionally: guarding the unlink with
+                # os.path.exists() leaves the file behind whenever that stat fails too.
+                try:
                     os.unlink(temp_path)
+                except OSError:
+                    pass
                 raise
 
         except PermissionError:
